@@ -96,10 +96,10 @@ func wildcardMatch(pattern, host string) bool {
 func isCatchAll(h string) bool { return h == "" || h == "0.0.0.0" || h == "::" || h == "*" }
 
 type decision struct {
-	site     int // -1 = no site
-	hostKind string
-	nHostCand int // number of declared host patterns that match at any specificity
-	nPathCand int
+	site              int // -1 = no site
+	hostKind          string
+	nHostCand         int // number of declared host patterns that match at any specificity
+	nPathCand         int
 	ambiguousCatchAll bool
 }
 
